@@ -73,6 +73,10 @@ pub fn mesh_params(m: u8) -> (usize, usize, usize, usize) {
 pub enum Act {
     Connect(u8),
     Disconnect(u8),
+    /// establish a second connection to an already connected peer
+    Connect2(u8),
+    /// close the i-th oldest (0 or 1) of a peer's two connections
+    Close(u8, u8),
     /// peer, topic mask (1 = T1, 2 = T2, 3 = both in one RPC)
     Sub(u8, u8),
     Unsub(u8, u8),
@@ -95,6 +99,9 @@ impl Act {
         match self {
             Act::Connect(_) => "Connect",
             Act::Disconnect(_) => "Disconnect",
+            Act::Connect2(_) => "SecondConnection",
+            Act::Close(_, 0) => "CloseOldestConnection",
+            Act::Close(..) => "CloseNewestConnection",
             Act::Sub(..) => "SubscribeRpc",
             Act::Unsub(..) => "UnsubscribeRpc",
             Act::Graft(..) => "GraftRpc",
@@ -243,6 +250,11 @@ impl MeshSys {
                 self.node.connect(pid(p), r.outbound, r.kind);
                 self.connected[p as usize] = true;
             }
+            Act::Connect2(p) => {
+                let r = self.roles[p as usize];
+                self.node.connect(pid(p), r.outbound, r.kind);
+            }
+            Act::Close(p, i) => self.node.close(pid(p), i as usize),
             Act::Disconnect(p) => {
                 self.node.disconnect(pid(p));
                 self.connected[p as usize] = false;
@@ -402,6 +414,11 @@ impl MeshSys {
                 self.marks.push(format!("multi-remove.{via}"));
             }
         }
+        if let Act::Close(p, i) = *a {
+            if before.iter().any(|s| s.contains(&p)) {
+                self.marks.push(if i == 0 { "close-oldest-connection-of-mesh-peer".into() } else { "close-newest-connection-of-mesh-peer".into() });
+            }
+        }
         for (_, n, delivered) in &self.node.notes {
             if *delivered {
                 self.marks.push(if *n == Note::Joined { "note.joined".into() } else { "note.left".into() });
@@ -497,16 +514,23 @@ impl MeshSys {
                         continue;
                     }
                     let member = after.iter().any(|s| s.contains(&p));
-                    let believes = self.node.handler_in_mesh(&pid(p)).unwrap_or(false);
-                    if member != believes {
+                    // Reading for several connections (see module doc of c29.rs): the behaviour
+                    // addresses the handler of the peer's oldest live connection; that one must
+                    // believe "in mesh" when the peer is a member, and no live handler may
+                    // believe so when it is not.
+                    let beliefs = self.node.handlers_in_mesh(&pid(p));
+                    let believes = beliefs.first().copied().unwrap_or(false);
+                    let stale = !member && beliefs.iter().any(|b| *b);
+                    if member != believes || stale {
                         let na = added.iter().filter(|x| x.0 == p).count();
                         let nr = removed.iter().filter(|x| x.0 == p).count();
                         let notes: Vec<String> = self.node.notes.iter().filter(|n| n.0 == pid(p)).map(|n| format!("{:?}{}", n.1, if n.2 { "" } else { "(undelivered)" })).collect();
                         return Err(format!(
-                            "C29 handler-in_mesh={believes} but mesh-member={member} via={via} added={na} removed={nr} :: P{}: mesh {:?} -> {:?}, notifications in this step {:?}",
+                            "C29 handler-in_mesh={believes} but mesh-member={member} via={via} added={na} removed={nr} :: P{}: mesh {:?} -> {:?}, beliefs of live connections (oldest first) {:?}, notifications in this step {:?}",
                             p + 1,
                             before,
                             after,
+                            beliefs,
                             notes
                         ));
                     }
@@ -528,8 +552,19 @@ impl Sys for MeshSys {
                 v.push(Act::Connect(p));
                 continue;
             }
-            v.push(Act::Disconnect(p));
             let ordinary = r.kind.is_gossipsub() && !r.explicit;
+            match self.node.conn_count(&pid(p)) {
+                1 => {
+                    v.push(Act::Disconnect(p));
+                    if ordinary {
+                        v.push(Act::Connect2(p));
+                    }
+                }
+                _ => {
+                    v.push(Act::Close(p, 0));
+                    v.push(Act::Close(p, 1));
+                }
+            }
             // Topic symmetry: single-topic remote actions are offered for T1 only; T2 takes part
             // through the two-topic RPCs (mask 3) and through local (un)subscription of either
             // topic, so every shape "in both / in one / in none" is still reachable.
@@ -592,7 +627,7 @@ impl Sys for MeshSys {
         write!(s, "{:?}|{:?}|{:?}|", self.node.mesh(), self.node.beh.verif_fanout(), self.node.beh.verif_explicit_peers()).unwrap();
         for p in 0..3u8 {
             let id = pid(p);
-            write!(s, "{:?}/{:?}/{:?}/", self.node.beh.verif_peer(&id), self.node.handler_in_mesh(&id), self.score(p).map(f64::to_bits)).unwrap();
+            write!(s, "{:?}/{:?}/{:?}/", self.node.beh.verif_peer(&id), self.node.handlers_in_mesh(&id), self.score(p).map(f64::to_bits)).unwrap();
             for t in 0..2u8 {
                 let bt = self.node.beh.verif_backoff_time(&thash(t), &id);
                 // remaining (or elapsed, clamped: once more than slack + 1 interval in the past
